@@ -11,6 +11,7 @@ import (
 	"strings"
 
 	"github.com/sourcenetwork/immutable"
+	"github.com/sourcenetwork/lens/host-go/config/model"
 
 	"github.com/sourcenetwork/defradb/acp/identity"
 	"github.com/sourcenetwork/defradb/client"
@@ -165,6 +166,7 @@ func (r *Runner) Replay(bi int, steps []Step) {
 	}
 	docIDs := map[int]string{}
 	createCid := map[int]string{}
+	npatch := 0
 	for si, st := range steps {
 		r.Res.Steps++
 		ctx := r.as(st.A)
@@ -183,11 +185,55 @@ func (r *Runner) Replay(bi int, steps []Step) {
 			}
 			got = "ok"
 		case "update":
-			data, err := n.Exec(ctx, fmt.Sprintf(`mutation { update_T(docID: %q, input: {v: %d}) { _docID } }`, docIDs[st.D], st.V))
-			got = outcome(err, len(cluster.Rows(data, "update_T")))
+			switch st.R {
+			case "filter":
+				// the collection API's filtered update
+				col, err := n.DB.GetCollectionByName(ctx, "T")
+				if err == nil {
+					var res *client.UpdateResult
+					res, err = col.UpdateWithFilter(ctx, fmt.Sprintf(`{k: {_eq: %d}}`, st.D), fmt.Sprintf(`{"v": %d}`, st.V))
+					rows := 0
+					if res != nil {
+						rows = int(res.Count)
+					}
+					got = outcome(err, rows)
+				} else {
+					got = outcome(err, 0)
+				}
+			case "save":
+				// Get + Set + Save through the collection API
+				col, err := n.DB.GetCollectionByName(ctx, "T")
+				if err == nil {
+					id, _ := client.NewDocIDFromString(docIDs[st.D])
+					var doc *client.Document
+					doc, err = col.Get(ctx, id, false)
+					if err == nil {
+						if err = doc.Set("v", int64(st.V)); err == nil {
+							err = col.Save(ctx, doc)
+						}
+					}
+				}
+				got = outcome(err, 1)
+			default:
+				data, err := n.Exec(ctx, fmt.Sprintf(`mutation { update_T(docID: %q, input: {v: %d}) { _docID } }`, docIDs[st.D], st.V))
+				got = outcome(err, len(cluster.Rows(data, "update_T")))
+			}
 		case "delete":
-			data, err := n.Exec(ctx, fmt.Sprintf(`mutation { delete_T(docID: %q) { _docID } }`, docIDs[st.D]))
-			got = outcome(err, len(cluster.Rows(data, "delete_T")))
+			if st.R == "filter" {
+				data, err := n.Exec(ctx, fmt.Sprintf(`mutation { delete_T(filter: {k: {_eq: %d}}) { _docID } }`, st.D))
+				got = outcome(err, len(cluster.Rows(data, "delete_T")))
+			} else {
+				data, err := n.Exec(ctx, fmt.Sprintf(`mutation { delete_T(docID: %q) { _docID } }`, docIDs[st.D]))
+				got = outcome(err, len(cluster.Rows(data, "delete_T")))
+			}
+		case "patch":
+			npatch++
+			err := n.DB.PatchSchema(r.ctx, fmt.Sprintf(`[{"op": "add", "path": "/T/Fields/-", "value": {"Name": "extra%d", "Kind": "String"}}]`, npatch), immutable.None[model.Lens](), true)
+			if err != nil {
+				r.Res.HarnessErrs = append(r.Res.HarnessErrs, "patch: "+err.Error())
+				return
+			}
+			got = "ok"
 		case "grant":
 			_, err := n.DB.AddDACActorRelationship(ctx, "T", docIDs[st.D], st.R, r.idents[st.B].DID())
 			got = outcome(err, 1)
